@@ -93,7 +93,7 @@ def healpix_case(draw, tier, mode):
     bcast = draw(st.integers(0, 3)) == 0
     return {'what': 'healpix', 'nside': nside, 'theta': theta, 'phi': phi, 'coverage': draw(st.booleans()),
             'rep': draw(st.integers(1, 5)), 'centres': centres, 'bcast': bcast, 'k': draw(st.integers(1, 3)),
-            'f32_landscape': draw(st.booleans())}
+            'f32_landscape': draw(st.booleans()), 'fresh': draw(st.integers(0, 3)) == 0}
 
 
 def strategy(tier, mode):
@@ -232,9 +232,14 @@ def check(recipe, mode):
     # 64-bit mode on (float64 angles)
     ldt = np.float32 if (x64 and recipe.get('f32_landscape')) else fdt
     key = (nside, ldt)
-    if key not in _HP_CACHE:
-        _HP_CACHE[key] = HealpixLandscape(nside, 'I', ldt)
-    land = _HP_CACHE[key]
+    if recipe.get('fresh') and nside <= 64:
+        # a short-lived landscape (a loop over resolutions, a pytree rebuild): dropped after this case, so that whatever
+        # the library remembers about it must not leak into the next landscape allocated at the same address
+        land = HealpixLandscape(nside, 'I', ldt)
+    else:
+        if key not in _HP_CACHE:
+            _HP_CACHE[key] = HealpixLandscape(nside, 'I', ldt)
+        land = _HP_CACHE[key]
     if land.shape != (12 * nside ** 2,) or land.nside != nside:
         raise Violation('landscape-bookkeeping', f'nside {nside}: shape {land.shape}')
     ref = hp.ang2pix(nside, theta, phi)
@@ -256,6 +261,8 @@ def check(recipe, mode):
         classes.append('float32_landscape_with_x64')
     if recipe.get('centres'):
         classes.append('pixel_centres')
+    if recipe.get('fresh') and nside <= 64:
+        classes.append('short_lived_landscape')
     if recipe['coverage'] and recipe.get('bcast') and nside <= 64:
         # a sampling given by broadcastable arrays: k colatitudes x n longitudes
         k = min(recipe.get('k', 1), theta.size)
